@@ -1,9 +1,209 @@
-import Echse.Model.Ical
+/-
+  Property C10: parsing by the iCalendar push parser (src/evical.c, model `Echse.Model.Ical`) does not depend
+  on how the bytes arrive.  Statements and short proofs; the work is in `Echse/Lemmas/Ical1 .. Ical19` and
+  `IcalFlat`: `feed` over ANY chunking computes a byte-at-a-time automaton (`runA`, Ical8) over the
+  concatenation, followed by `finish` (Ical17) for the last pull.
+-/
+import Echse.Lemmas.Ical19
 namespace C10
 open Echse.Ical
 
-/-- smoke (general statements replace this): a fold split between the newline and the space (finding D18a, repaired) -/
+/-! ### the inputs the equality is claimed for
+
+The conditions are phrased over the skeleton `Sc` of the reference automaton (Ical8), which reads the input
+byte by byte and keeps, for the logical (unfolded) line being read: `raw` = number of raw bytes of it so far
+(CRs, fold NL+whitespace and its final NL included), `empty` = no content byte yet (only CRs and folds),
+`pend` = its NL has been read (the line is complete unless SP/TAB follows), `sp` = it contains SP or TAB as a
+content byte (fold whitespace not counted).  `allSc φ {} bs` says `φ state rest` at every position. -/
+
+/-- every logical line takes fewer than 1000 RAW bytes (folds, CRs and NL counted).  Implies that every
+NL-free run and every unfolded line is shorter than 1000.  The raw count is what matters: a line that is only
+partly in the buffer is dropped when `bytes left in the buffer ≥ 1024 - stash fill`, whatever it would
+unfold to (finding D18d; witness below: `raw_matters`). -/
+def LinesShort (bs : List Byte) : Prop := allSc (fun s _ => decide (s.raw < 1000)) {} bs = true
+
+/-- no fold continues an EMPTY line (nothing but CRs since the last line end): `_ical_pull` leaves its
+`\001` mark only on a non-empty stash, so `LF | SP x` keeps the space while `LF SP x` in one buffer drops it
+(witness below: `empty_fold_matters`). -/
+def NoFoldOnEmpty (bs : List Byte) : Prop :=
+  allSc (fun s rest => !(s.pend && s.empty && isFold (rest.headD 0))) {} bs = true
+
+/-- if the input ends in a complete non-empty line, that last logical line has no SP/TAB content byte:
+the last pull decides whether the marked stash is a complete line by looking at `*BP` of the OLD buffer
+(the first unconsumed byte of the last chunk), so a last line cut in front of a space is never processed
+(witnesses below: `last_line_matters`, `leading_space_matters`). -/
+def LastLinePlain (bs : List Byte) : Prop :=
+  ((runSc {} bs).pend && !(runSc {} bs).empty && (runSc {} bs).sp) = false
+
+def Tidy (bs : List Byte) : Prop :=
+  (∀ b ∈ bs, b ≠ 92) ∧        -- no backslash (finding D17)
+  (∀ b ∈ bs, b ≠ 0) ∧         -- no NUL (as asked for; the proof does not use it)
+  LinesShort bs ∧ NoFoldOnEmpty bs ∧ LastLinePlain bs
+
+instance (bs : List Byte) : Decidable (Tidy bs) := by
+  unfold Tidy LinesShort NoFoldOnEmpty LastLinePlain; infer_instance
+
+theorem allSc_and (φ ψ : Sc → List Byte → Bool) : ∀ (l : List Byte) (s : Sc),
+    allSc (fun s r => φ s r && ψ s r) s l = (allSc φ s l && allSc ψ s l)
+  | [], s => by simp [allSc]
+  | c :: r, s => by
+    rw [allSc, allSc, allSc, allSc_and φ ψ r]
+    cases φ s (c :: r) <;> cases ψ s (c :: r) <;> simp
+
+theorem tidy_good (bs : List Byte) (h : Tidy bs) : Good {} bs := by
+  unfold Good
+  have : okAt = fun s r => (fun s _ => decide (s.raw < 1000)) s r &&
+      (fun s rest => !(s.pend && s.empty && isFold (rest.headD 0))) s r := by
+    funext s r; rfl
+  rw [this, allSc_and, h.2.2.1, h.2.2.2.1]; rfl
+
+theorem tidy_last (bs : List Byte) (h : Tidy bs) :
+    (runSc {} bs).pend = true → (runSc {} bs).empty = false → (runSc {} bs).sp = false := by
+  intro h1 h2
+  have := h.2.2.2.2
+  unfold LastLinePlain at this
+  rw [h1, h2] at this
+  simpa using this
+
+/-- what `feed` computes on a tidy input, however it is cut -/
+theorem feed_tidy (chunks : List (List Byte)) (hne : ∀ c ∈ chunks, c ≠ []) (hbs : chunks.flatten ≠ [])
+    (ht : Tidy chunks.flatten) :
+    feed chunks = finish (runA {} chunks.flatten) (runA {} chunks.flatten).ins :=
+  feed_spec chunks hne hbs (tidy_good _ ht) ht.1 (tidy_last _ ht)
+
+/-- C10: the instructions produced and the lines acted upon do not depend on the chunking -/
+theorem chunk_independent (bs : List Byte) (chunks : List (List Byte)) (hc : chunks.flatten = bs)
+    (hne : ∀ c ∈ chunks, c ≠ []) (ht : Tidy bs) : feed chunks = feed [bs] := by
+  cases hb : bs with
+  | nil =>
+    cases chunks with
+    | nil => rfl
+    | cons c r =>
+      have : c = [] := by
+        rw [hb] at hc; simp at hc; exact hc.1
+      exact absurd this (hne c (by simp))
+  | cons b0 r0 =>
+    rw [← hb]
+    have h1 : [bs].flatten = bs := by simp
+    have hbs : bs ≠ [] := by rw [hb]; simp
+    rw [feed_tidy chunks hne (by rw [hc]; exact hbs) (by rw [hc]; exact ht)]
+    rw [feed_tidy [bs] (by intro c hc'; simp at hc'; rw [hc']; exact hbs) (by rw [h1]; exact hbs)
+      (by rw [h1]; exact ht)]
+    rw [hc, h1]
+
+/-! ### the stash is never overrun (no hypothesis on the input) -/
+
+/-- `_ical_pull`, `echs_evical_pull` and the callers' loop keep the stash fill below the size of the stash
+(the byte at `stash[six]` - terminator or mark - is inside the buffer as well) -/
+theorem stash_bounded :
+    (∀ fuel p, p.stash.length < stashSize → (pull fuel p).1.stash.length < stashSize) ∧
+    (∀ fuel p, p.stash.length < stashSize → (pullIns fuel p).1.stash.length < stashSize) ∧
+    (∀ fuel p, p.stash.length < stashSize → (pullEv fuel p).1.stash.length < stashSize) ∧
+    (∀ fuel p acc, p.stash.length < stashSize → (drain fuel p acc).1.stash.length < stashSize) :=
+  ⟨loop_stash_lt pull_isLoop round_good, loop_stash_lt pullIns_isLoop insStep_good,
+   loop_stash_lt pullEv_isLoop evStep_good, drain_stash_lt⟩
+
+theorem feedStep_bounded (s : Option Parser × List Instr) (ch : List Byte)
+    (hs : ∀ q, s.1 = some q → q.stash.length < stashSize) :
+    ∀ q, (feedStep s ch).1 = some q → q.stash.length < stashSize := by
+  intro q hq
+  unfold feedStep at hq
+  split at hq
+  · exact hs q hq
+  · dsimp only at hq
+    cases hq
+    apply drain_stash_lt
+    cases h1 : s.1 with
+    | none => simp [stashSize]
+    | some q1 => exact hs q1 h1
+
+/-- every parser state between the pushes of `feed`, on any input whatsoever -/
+theorem stash_bounded_feed : ∀ (chunks : List (List Byte)) (s : Option Parser × List Instr),
+    (∀ q, s.1 = some q → q.stash.length < stashSize) →
+    ∀ q, (chunks.foldl feedStep s).1 = some q → q.stash.length < stashSize
+  | [], _, hs => hs
+  | ch :: r, s, hs => by
+    rw [List.foldl_cons]
+    exact stash_bounded_feed r _ (feedStep_bounded s ch hs)
+
+/-! ### the loops of the model end by their own exit conditions -/
+
+/-- more fuel than `feed` hands to the loops changes nothing (every round of `_ical_pull` that does not
+return consumes a byte of the buffer or the mark on the stash: measure `mu`, Ical4) -/
+theorem fuel_suffices (k : Nat) (p : Parser) (acc : List Instr) :
+    pull (p.buf.length - p.bix + 2 + k) p = pull (p.buf.length - p.bix + 2) p ∧
+    pull (p.buf.length + 2 + k) p = pull (p.buf.length + 2) p ∧
+    pullIns (p.buf.length + 2 + k) p = pullIns (p.buf.length + 2) p ∧
+    pullEv (p.buf.length + 2 + k) p = pullEv (p.buf.length + 2) p ∧
+    drain (p.buf.length + 2 + k) p acc = drain (p.buf.length + 2) p acc := by
+  have h1 : mu p < p.buf.length - p.bix + 2 := by have := mu_le p; omega
+  have h2 := mu_lt_fuel p
+  exact ⟨loop_fuel pull_isLoop round_good _ k p h1, loop_fuel pull_isLoop round_good _ k p h2,
+    loop_fuel pullIns_isLoop insStep_good _ k p h2, loop_fuel pullEv_isLoop evStep_good _ k p h2,
+    drain_fuel _ k p acc h2⟩
+
+/-! ### non-vacuity -/
+
+/-- a calendar with CRLF line ends, a METHOD, a VEVENT, and two folded lines (SP and TAB folds) -/
+def cal : List Byte :=
+  [66, 69, 71, 73, 78, 58, 86, 67, 65, 76, 69, 78, 68, 65, 82, 13, 10,                       -- BEGIN:VCALENDAR
+   77, 69, 84, 72, 79, 68, 58, 80, 85, 66, 76, 73, 83, 72, 13, 10,                           -- METHOD:PUBLISH
+   66, 69, 71, 73, 78, 58, 86, 69, 86, 69, 78, 84, 13, 10,                                   -- BEGIN:VEVENT
+   85, 73, 68, 58, 97, 49, 13, 10,                                                           -- UID:a1
+   83, 85, 77, 77, 65, 82, 89, 58, 101, 99, 104, 111, 32, 104, 101, 108, 108, 111, 13, 10,   -- SUMMARY:echo hello
+   32, 32, 119, 111, 114, 108, 100, 13, 10,                                                  --  ( world)
+   68, 84, 83, 84, 65, 82, 84, 58, 50, 48, 51, 48, 48, 49, 48, 49, 84, 48, 48, 48, 48, 49, 48, 90, 13, 10,
+   82, 82, 85, 76, 69, 58, 70, 82, 69, 81, 61, 68, 65, 73, 76, 89, 59, 13, 10,               -- RRULE:FREQ=DAILY;
+   9, 67, 79, 85, 78, 84, 61, 51, 13, 10,                                                    -- \tCOUNT=3
+   69, 78, 68, 58, 86, 69, 86, 69, 78, 84, 13, 10,                                           -- END:VEVENT
+   69, 78, 68, 58, 86, 67, 65, 76, 69, 78, 68, 65, 82, 13, 10]                               -- END:VCALENDAR
+
+set_option maxRecDepth 20000 in
+example : Tidy cal := by decide
+
+/-- instructions (verb, lines) and log, comparable by `decide` -/
+def view (x : List Instr × List (List Byte)) : List (String × List (List Byte)) × List (List Byte) :=
+  (x.1.map fun i => (i.verb, i.lines), x.2)
+
+/-- an instance of `chunk_independent` computed directly: the cut falls between the LF and the TAB of the
+folded RRULE line (finding D18a, repaired); one instruction comes out -/
+example : (cal.take 129).getLast? = some 10 ∧ (cal.drop 129).head? = some 9 := by decide
+
+set_option maxRecDepth 100000 in
+example : view (feed [cal.take 129, cal.drop 129]) = view (feed [cal]) ∧ (feed [cal]).1.length = 1 := by
+  decide
+
+/-- the earlier smoke check: a fold split between the newline and the space -/
 theorem fold_split_between_lf_and_sp :
-    (feed [[65, 58, 49, 10], [32, 50, 10, 66, 58, 10]]).2 = (feed [[65, 58, 49, 10, 32, 50, 10, 66, 58, 10]]).2 := by decide
+    (feed [[65, 58, 49, 10], [32, 50, 10, 66, 58, 10]]).2 = (feed [[65, 58, 49, 10, 32, 50, 10, 66, 58, 10]]).2 := by
+  decide
+
+/-! ### why `Tidy` has its conjuncts: inputs on which the parse DOES depend on the chunking -/
+
+/-- without `NoFoldOnEmpty`: `LF | SP B LF C LF` -/
+theorem empty_fold_matters :
+    (feed [[10], [32, 66, 10, 67, 10]]).2 = [[32, 66], [67]] ∧ (feed [[10, 32, 66, 10, 67, 10]]).2 = [[66], [67]] := by
+  decide
+
+/-- without `LastLinePlain`: `A:1 | SP 2 LF` - the last line is not acted upon when cut in front of the space -/
+theorem last_line_matters :
+    (feed [[65, 58, 49], [32, 50, 10]]).2 = [] ∧ (feed [[65, 58, 49, 32, 50, 10]]).2 = [[65, 58, 49, 32, 50]] := by
+  decide
+
+/-- without `LastLinePlain`, at the very start: `SP | B LF` against `SP B LF` -/
+theorem leading_space_matters :
+    (feed [[32], [66, 10]]).2 = [[32, 66]] ∧ (feed [[32, 66, 10]]).2 = [] := by
+  decide
+
+/-- a logical line of 1204 raw bytes that unfolds to 2 (`A:`, 600 CRs, a fold, 600 CRs): every NL-free run
+and every unfolded line is far below 1000, yet the line is dropped when the cut falls in front of its LF -/
+def longLine : List Byte := [65, 58] ++ List.replicate 600 13 ++ [10, 32] ++ List.replicate 600 13
+
+set_option maxRecDepth 1000000 in
+/-- without the RAW bound of `LinesShort` (bounds on NL-free runs and unfolded lines do not suffice) -/
+theorem raw_matters :
+    (feed [longLine ++ [10, 66, 58, 49, 10]]).2 = [[65, 58], [66, 58, 49]] ∧
+    (feed [longLine, [10, 66, 58, 49, 10]]).2 = [[66, 58, 49]] := by
+  decide
 
 end C10
